@@ -233,6 +233,17 @@ class C16(Check):
                 frontier = nxt
             ctx.states += len(visited)
             ctx.count("frontier_states_at_depth_bound", len(frontier))
+            # integers outside the range NumPy accepts as a seed ("the same integer seed" quantifies over integers): whatever the
+            # entry point does with them - the unchanged tree refuses them - it must do the same every time, global state untouched
+            if group["kind"] == "seeded":
+                for s_ in (-1, -12345, 2 ** 32):
+                    for h in ([["int", s_], ["int", s_]], [["int", s_], ["seed", 0], ["draw", 1], ["int", s_]]):
+                        case = dict(group, history=h, seed=seed)
+                        ctx.begin(case)
+                        self._exec(case, ctx, {})
+                        ctx.transitions += 1
+                        ctx.traces += 1
+                        ctx.count("out_of_range_seed_histories")
             # vacuity evidence: do different seeds give different outputs for this entry point?
             if group["kind"] == "seeded":
                 hs = {first_out.get(("int", s)) for s in INT_SEEDS}
